@@ -288,6 +288,43 @@ pub fn c18(em: &mut Emit, thorough: bool, _seed: u64) {
                 &format!("etag:{}", what),
             );
         }
+        // modification times before the epoch: a tag all the same, distinct from the mirrored time
+        // after the epoch, and the entity is served
+        for (what, back) in [("1ns", Duration::new(0, 1)), ("0.3s", Duration::new(0, 300_000_000)),
+                             ("1s", Duration::new(1, 0)), ("10y", Duration::new(315_576_000, 7))] {
+            f.set_modified(UNIX_EPOCH - back).unwrap();
+            let g = Crf::new(std::fs::File::open(&path).unwrap(), HeaderMap::new()).unwrap();
+            let m = std::fs::metadata(&path).unwrap();
+            let r = std::panic::catch_unwind(std::panic::AssertUnwindSafe(|| g.etag().unwrap().as_bytes().to_vec()));
+            f.set_modified(UNIX_EPOCH + back).unwrap();
+            let mirrored = Crf::new(std::fs::File::open(&path).unwrap(), HeaderMap::new())
+                .unwrap()
+                .etag()
+                .unwrap()
+                .as_bytes()
+                .to_vec();
+            f.set_modified(UNIX_EPOCH - back).unwrap();
+            let served = std::panic::catch_unwind(std::panic::AssertUnwindSafe(|| {
+                let g = Crf::new(std::fs::File::open(&path).unwrap(), HeaderMap::new()).unwrap();
+                let req = http::Request::get("/").body(()).unwrap();
+                http_serve::serve(g, &req).status().as_u16()
+            }));
+            let (out, p) = match (&r, &served) {
+                (Ok(t), Ok(200)) => (
+                    hex(t),
+                    pred(valid_strong_tag(t) && *t != t1 && *t != mirrored && g.last_modified() == Some(m.modified().unwrap()),
+                         || "etag of a pre-epoch file invalid, unchanged or equal to the mirrored time's".into()),
+                ),
+                _ => ("PANIC".to_string(), format!("FAIL:file modified {} before the epoch: etag panicked={} serve={:?}", what, r.is_err(), served.as_ref().ok())),
+            };
+            em.case(
+                &format!("ETAG ino={} len={} secs=-{} nanos={}", m.ino(), m.len(), back.as_secs(), back.subsec_nanos()),
+                &out,
+                &p,
+                "etag:pre-epoch",
+            );
+        }
+        f.set_modified(UNIX_EPOCH + Duration::new(secs + 2, 5)).unwrap();
         {
             let before = Crf::new(std::fs::File::open(&path).unwrap(), HeaderMap::new())
                 .unwrap()
@@ -603,6 +640,20 @@ pub fn c19(em: &mut Emit, thorough: bool, seed: u64) {
         http_serve::dir::FsDir::builder().auto_gzip(false).for_path(&t.base).unwrap(),
         http_serve::dir::FsDir::builder().for_path(&t.base).unwrap(),
     ];
+    // FsDir::open's own argument checks
+    for (what, path, want) in [
+        ("NUL in the base path", format!("{}/a\0b", t.base.display()), "INVALID:"),
+        ("base path of PATH_MAX bytes", format!("{}/{}", t.base.display(), "x/".repeat(2048)), "INVALID:"),
+        ("missing base directory", format!("{}/nonexistent", t.base.display()), "ERR:notfound"),
+        ("base path names a file", format!("{}/a", t.base.display()), "ERR:"),
+    ] {
+        let got = match http_serve::dir::FsDir::builder().for_path(&path) {
+            Ok(_) => "OK".to_string(),
+            Err(e) => classify_io(&e),
+        };
+        let pred = if got.starts_with(want) { "ok".to_string() } else { format!("FAIL:for_path gave {}", got) };
+        em.pred_only(&format!("FsDir::for_path, {}", what), &pred, "for_path");
+    }
     for p in &paths {
         for (auto, dir) in dirs.iter().enumerate() {
             // not the full product for every path: all four header values for short paths,
@@ -624,7 +675,9 @@ pub fn c19(em: &mut Emit, thorough: bool, seed: u64) {
                         let mut hh = HeaderMap::new();
                         node.add_encoding_headers(&mut hh);
                         let ce = hh.get("content-encoding").map(|v| v.as_bytes()) == Some(b"gzip");
-                        let vary = hh.get("vary").map(|v| v.as_bytes()) == Some(b"accept-encoding");
+                        // (`encoding_varies` must say what the Vary header says)
+                        let vary = (hh.get("vary").map(|v| v.as_bytes()) == Some(b"accept-encoding"))
+                            && node.encoding_varies();
                         let gz = node.encoding() == Some("gzip");
                         (
                             format!(
